@@ -188,11 +188,36 @@ func c15Cell(st c15State, op, ev, timing string, seed uint64) string {
 	}
 
 	// the enabling event, from a peer goroutine
+	// the peer uses either pair of calls the service uses: Write / Read, or reserve+commit / peek+commit
+	viaCommit := seed%2 == 1
+	detail["peer_uses_commit_calls"] = viaCommit
 	supply := func(k int64) {
 		if isConsumerOp(op) {
 			p := make([]byte, k)
 			fillStream(p, seed, st.offset+st.fill)
+			if viaCommit {
+				if dst, wrap, err := b.WriteWait(int(k)); err == nil && !wrap && int64(len(dst)) >= k {
+					copy(dst, p)
+					b.WriteCommit(int(k))
+					return
+				}
+			}
 			b.Write(p)
+		} else if viaCommit {
+			// free k bytes through peek + commit
+			left := k
+			for left > 0 {
+				m := left
+				if m > 4096 {
+					m = 4096
+				}
+				b.ReadPeek(int(m))
+				got, err := b.ReadCommit(int(m))
+				if err != nil {
+					return
+				}
+				left -= int64(got)
+			}
 		} else {
 			// free k bytes
 			left := k
